@@ -30,6 +30,7 @@ pixman_implementation_t *_pixman_choose_implementation(void);
 
 static pixman_implementation_t *ph_imp[PH_NCFG];
 static int ph_cur_cfg = -1;
+static volatile int ph_in_flush;      /* set while ph_set_cfg() runs its cache-flushing composites */
 static pixman_image_t *ph_flush_img[2];
 
 static const char *ph_cfg_name(int cfg, char *buf, size_t cap)
@@ -87,8 +88,10 @@ static void ph_set_cfg(int cfg)
         PIXMAN_OP_DISJOINT_OVER, PIXMAN_OP_DISJOINT_IN, PIXMAN_OP_DISJOINT_OUT, PIXMAN_OP_DISJOINT_ATOP, PIXMAN_OP_DISJOINT_XOR,
         PIXMAN_OP_CONJOINT_OVER, PIXMAN_OP_CONJOINT_IN, PIXMAN_OP_CONJOINT_OUT, PIXMAN_OP_CONJOINT_ATOP, PIXMAN_OP_CONJOINT_XOR,
         PIXMAN_OP_MULTIPLY, PIXMAN_OP_SCREEN, PIXMAN_OP_OVERLAY };
+    ph_in_flush = 1;
     for (unsigned i = 0; i < sizeof ops / sizeof ops[0]; i++)
         pixman_image_composite32(ops[i], ph_flush_img[0], NULL, ph_flush_img[1], 0, 0, 0, 0, 0, 0, 1, 1);
+    ph_in_flush = 0;
 }
 
 /* ---------------- format descriptors (from the format code only) ---------------- */
